@@ -499,7 +499,13 @@ class Exec:
         cands = [k for k, c in o['cells'].items() if c[1] == sz]
         if not cands: raise Unsupported('symbolic load from object without cells')
         s.obligations.append(('in-bounds load', z3.Or([off == k for k in cands])))
-        cands.sort(); r = s.retype(s.dflt(o['cells'][cands[-1]][0], ty), ty)
+        cands.sort()
+        if isinstance(ty, PtrT) and s.solver is not None:
+            # pointers cannot be merged into an ite: fork the path on the (few) feasible offsets instead
+            for k in cands:
+                if s.branch(off == k): return s.retype(s.dflt(o['cells'][k][0], ty), ty)
+            raise Abort('out-of-bounds pointer load (the in-bounds obligation recorded above fails on this path)')
+        r = s.retype(s.dflt(o['cells'][cands[-1]][0], ty), ty)
         for k in reversed(cands[:-1]): r = s.ite(off == k, s.retype(s.dflt(o['cells'][k][0], ty), ty), r)
         return r
     def retype(s, v, ty):
@@ -855,8 +861,31 @@ def run_function(E, fname, args, depth=0):
                         if getattr(E, 'nn_fail', 0) < 4:
                             E.solver.push(); E.solver.set('timeout', 3000); E.solver.add(A < 0); r_ = zcheck(E.solver, 4000); E.solver.pop(); E.solver.set('timeout', E.solver_timeout_ms)
                             if r_ == z3.unsat: op = 'udiv' if op == 'sdiv' else 'urem'
-                            elif r_ != z3.sat: E.nn_fail = getattr(E, 'nn_fail', 0) + 1     # helper query undecided: keep the signed operation
+                            else: E.nn_fail = getattr(E, 'nn_fail', 0) + 1     # helper query undecided or the value can be negative: keep the signed operation (and stop asking after 4 such answers)
                     if op in ('udiv', 'urem', 'sdiv', 'srem') and not isint(b): E.obligations.append(('division by zero', B != 0))
+                    if op in ('sdiv', 'srem') and isint(b) and 1 < E.sgn(b, bits) and (b & (b - 1)) == 0:
+                        # signed division by 2^k of a value whose sign is unknown: shift form (round toward zero) instead of a divider circuit
+                        k_ = E.sgn(b, bits).bit_length() - 1
+                        bias = z3.LShR(A >> (bits - 1), bits - k_); q_ = (A + bias) >> k_
+                        r = z3.simplify(q_ if op == 'sdiv' else A - (q_ << k_))
+                        regs[i.dest] = r.as_long() if z3.is_bv_value(r) else r
+                        continue
+                    if op in ('udiv', 'urem', 'sdiv', 'srem') and isint(b) and not isint(a) and E.solver is not None and getattr(fp, 'ax', None) is not None:
+                        sgnd = op in ('sdiv', 'srem'); Cv = E.sgn(b, bits) if sgnd else (b & ((1 << bits) - 1)); aC = abs(Cv)
+                        if aC >= 3 and (aC & (aC - 1)) != 0:
+                            # division by a constant that is not a power of two: definitional encoding A == q*C + r with the Euclidean side
+                            # conditions (exact in Z: no-overflow predicates), instead of a bit-blasted divider circuit
+                            E.ndivc = getattr(E, 'ndivc', 0) + 1
+                            q = z3.BitVec('divq!%d' % E.ndivc, bits); rr = z3.BitVec('divr!%d' % E.ndivc, bits); Cb = z3.BitVecVal(Cv, bits)
+                            fp.ax.append(A == q * Cb + rr)
+                            fp.ax.append(z3.BVMulNoOverflow(q, Cb, sgnd)); fp.ax.append(z3.BVAddNoOverflow(q * Cb, rr, sgnd))
+                            if sgnd:
+                                fp.ax.append(z3.BVMulNoUnderflow(q, Cb)); fp.ax.append(z3.BVAddNoUnderflow(q * Cb, rr))
+                                fp.ax.append(z3.If(A >= 0, z3.And(rr >= 0, rr < aC), z3.And(rr <= 0, rr > -aC)))
+                            else: fp.ax.append(z3.ULT(rr, Cb))
+                            fp.keep.extend([q, rr])
+                            regs[i.dest] = q if op in ('sdiv', 'udiv') else rr
+                            continue
                     r = {'add': lambda: A + B, 'sub': lambda: A - B, 'mul': lambda: A * B, 'and': lambda: A & B, 'or': lambda: A | B, 'xor': lambda: A ^ B,
                          'shl': lambda: A << B, 'lshr': lambda: z3.LShR(A, B), 'ashr': lambda: A >> B, 'sdiv': lambda: A / B, 'udiv': lambda: z3.UDiv(A, B),
                          'srem': lambda: z3.SRem(A, B), 'urem': lambda: z3.URem(A, B)}[op]()
